@@ -300,7 +300,7 @@ def run(ctx):
               {render(strip(x), False) for x in kids(o)} == {"this->offset", sl.d["params"][0]["n"]} and strip(a[1]).get("d") == sl.d["params"][1]["d"])
     R.ob("C02-R5", ok, sl.q, "slice:same-buffer at offset+offset_", "%s:%d" % (sl.relfile, sl.d["line"]), "modeMemory_t::slice forwards to its own buffer at the absolute offset with the requested size")
     facts = sl.cfg.facts_at(cs[0]) if cs else set()
-    okg = any(k[1] and "modeBuffer" in k[0] for k in facts) and any((r := rel(sl.cfg, k)) and r[0] == ">=" and const_of(r[2]) == 0 for k in facts)
+    okg = any("modeBuffer" in k[0] and ((k[1] and "==" not in k[0]) or ((not k[1]) and "== NULL" in k[0])) for k in facts) and any((r := rel(sl.cfg, k)) and r[0] == ">=" and const_of(r[2]) == 0 for k in facts)
     R.ob("C02-R5", okg, sl.q, "slice:guards", "%s:%d" % (sl.relfile, sl.d["line"]), "buffer non-null and absolute offset >= 0 guards dominate the forward")
     bs = prog.fn("occa::serial::buffer::slice")
     news = [n for n in bs.walk() if n["k"] == "CXXNewExpr"]
